@@ -21,7 +21,13 @@ Deliberate differences from `dotparse.rs` (all listed again in `Proofs/DotText.l
   it compares pictures as sets; `decodeDot` keeps the order of the document, which is finer;
 * `Graph` keeps only the last `label` of a (sub)graph and drops all other graph attributes and the
   cluster names; the parse tree `DGraphT` keeps every statement in order, and `decodeDot` looks up
-  the last `label`.
+  the last `label`;
+* `decodeDot` is lenient about cosmetics: the kind of a node is read from its label and number
+  only (`"<id> T<tid>"` accepting, else `"<id>"` with start = node 0), where `decode` reads it from
+  `color` (blue / red / none, anything else an error); `shape`, `color`, `penwidth` and unknown
+  attributes are ignored;
+* the parser additionally accepts default-attribute statements `node [..];`, `edge [..];`,
+  `graph [..];` (`DStmt.dflt`, ignored by `decodeDot`), which `dotparse.rs` rejects.
 -/
 namespace Scnr
 
@@ -142,6 +148,9 @@ inductive DStmt where
   | edge (src dst : List Nat) (attrs : List (List Nat × List Nat))
   /-- `subgraph cluster_... { ... }` -/
   | sub (name : List Nat) (body : List DStmt)
+  /-- default attributes `node [k=v, ...] ;` / `edge [...] ;` / `graph [...] ;` (not written by the
+      crate and not accepted by `dotparse.rs`; accepted here so that restyled files still decode) -/
+  | dflt (what : List Nat) (attrs : List (List Nat × List Nat))
 deriving Inhabited
 
 structure DGraphT where
@@ -169,6 +178,9 @@ def kwLaFor : List Nat := [76, 65, 32, 102, 111, 114, 32, 84]
 def kwPos : List Nat := [80, 111, 115, 41]
 /-- `"Neg)"` -/
 def kwNeg : List Nat := [78, 101, 103, 41]
+def kwNode : List Nat := [110, 111, 100, 101]
+def kwEdge : List Nat := [101, 100, 103, 101]
+def kwGraph : List Nat := [103, 114, 97, 112, 104]
 
 /-- `P::value`: an identifier or a quoted string -/
 def tokValue : DTok → Option (List Nat)
@@ -208,6 +220,24 @@ def pAttrsSemi (ts : List DTok) : Option (List (List Nat × List Nat) × List DT
   match pOptAttrs ts with
   | some (as, .semi :: r) => some (as, r)
   | _ => none
+
+/-- after `node` / `edge` / `graph`: a non-empty attribute list and `;` (default attributes) -/
+def pDfltStmt (k : List Nat) : List DTok → Option (DStmt × List DTok)
+  | .lbrack :: r =>
+    match pAttrs r with
+    | some (as, .semi :: r') => some (.dflt k as, r')
+    | _ => none
+  | _ => none
+
+def isDfltKw (k : List Nat) : Bool := k == kwNode || k == kwEdge || k == kwGraph
+
+/-- a statement starting with an identifier other than `subgraph`: a graph attribute
+    `id = value ;` (this is all `dotparse.rs` accepts here) or default attributes
+    `node [..] ;` / `edge [..] ;` / `graph [..] ;` -/
+def pIdStmt (k : List Nat) (ts : List DTok) : Option (DStmt × List DTok) :=
+  match pAttrStmt k ts with
+  | some x => some x
+  | none => if isDfltKw k then pDfltStmt k ts else none
 
 /-- after a quoted name: an edge (`-> "target" [attrs] ;`) or a node (`[attrs] ;`) -/
 def pStrStmt (name : List Nat) : List DTok → Option (DStmt × List DTok)
@@ -253,7 +283,7 @@ def pStmts : Nat → List DTok → Option (List DStmt × List DTok)
             | none => none
             | some (ss, r3) => some (.sub name body :: ss, r3)
       else
-        match pAttrStmt s r with
+        match pIdStmt s r with
         | none => none
         | some (st, r1) =>
           match pStmts f r1 with
@@ -302,6 +332,15 @@ def idOf (pre name : List Nat) : Option Nat :=
   | some s => parseNat s
   | none => none
 
+/-- the token type of an accepting label `"<id> T<tid>"` -/
+def acceptingTid (id : Nat) (label : List Nat) : Option Nat :=
+  match stripPrefix (natDigits id ++ [32, 84]) label with
+  | none => none
+  | some s => parseNat s
+
+/-- The kind of a node comes from its label and its number only: `"<id> T<tid>"` is an accepting
+    node, otherwise the label must be `"<id>"`, and node 0 is the start node. All other attributes
+    (`shape`, `color`, `penwidth`, anything unknown) are cosmetics and ignored. -/
 def decodeNode (pre name : List Nat) (attrs : List (List Nat × List Nat)) : Option DNode :=
   match idOf pre name with
   | none => none
@@ -309,17 +348,10 @@ def decodeNode (pre name : List Nat) (attrs : List (List Nat × List Nat)) : Opt
     match lookupAttr kwLabel attrs with
     | none => none
     | some label =>
-      match lookupAttr kwColor attrs with
-      | none => if label = natDigits id then some ⟨id, 0, 0⟩ else none
-      | some c =>
-        if c = kwBlue then (if label = natDigits id then some ⟨id, 1, 0⟩ else none)
-        else if c = kwRed then
-          match stripPrefix (natDigits id ++ [32, 84]) label with
-          | none => none
-          | some s =>
-            match parseNat s with
-            | some t => some ⟨id, 2, t⟩
-            | none => none
+      match acceptingTid id label with
+      | some t => some ⟨id, 2, t⟩
+      | none =>
+        if label = natDigits id then (if id = 0 then some ⟨id, 1, 0⟩ else some ⟨id, 0, 0⟩)
         else none
 
 /-- what follows the last occurrence of `pat` in `s` (`s[s.rfind(pat)? + pat.len()..]`) -/
@@ -518,10 +550,10 @@ def nodesOKFrom : Nat → List DNode → Bool
   | _, [] => true
   | i, n :: r =>
     n.id == i && (n.kind == 0 || n.kind == 1 || n.kind == 2) && (i != 0 || n.kind == 1)
-      && (n.kind == 2 || n.tid == 0) && nodesOKFrom (i + 1) r
+      && (n.kind != 1 || i == 0) && (n.kind == 2 || n.tid == 0) && nodesOKFrom (i + 1) r
 
-/-- node ids are `0..n-1` in order, node 0 is the start node, kinds are 0 (plain), 1 (start),
-    2 (accepting), only accepting nodes carry a token type, edges connect existing nodes -/
+/-- node ids are `0..n-1` in order, node 0 is the start node and the only one, kinds are 0 (plain),
+    1 (start), 2 (accepting), only accepting nodes carry a token type, edges connect existing nodes -/
 def DGraph.textOK (g : DGraph) : Bool :=
   nodesOKFrom 0 g.nodes
     && g.edges.all fun e => decide (e.src < g.nodes.length) && decide (e.dst < g.nodes.length)
